@@ -500,15 +500,15 @@ fn check_cmap_glyph_ids(cmap: &[u8], num_glyphs: usize, problems: &mut Problems)
 
 // ---- minimal independent CFF reader: just enough to count what must agree
 
-struct CffIndex {
-    count: usize,
+pub(crate) struct CffIndex {
+    pub count: usize,
     /// absolute offset of the first byte after the INDEX
-    end: usize,
+    pub end: usize,
     /// absolute [start, end) of each object
-    objs: Vec<(usize, usize)>,
+    pub objs: Vec<(usize, usize)>,
 }
 
-fn cff_index(d: &[u8], at: usize) -> Option<CffIndex> {
+pub(crate) fn cff_index(d: &[u8], at: usize) -> Option<CffIndex> {
     let count = usize::from(be16(d, at)?);
     if count == 0 {
         return Some(CffIndex { count, end: at + 2, objs: Vec::new() });
@@ -541,7 +541,7 @@ fn cff_index(d: &[u8], at: usize) -> Option<CffIndex> {
 }
 
 /// Operators of a DICT with their integer operands (reals are skipped as 0).
-fn cff_dict(d: &[u8]) -> Vec<(u16, Vec<i64>)> {
+pub(crate) fn cff_dict(d: &[u8]) -> Vec<(u16, Vec<i64>)> {
     let mut out = Vec::new();
     let mut ops: Vec<i64> = Vec::new();
     let mut i = 0;
